@@ -125,9 +125,6 @@ VIEW_OF = {mm: anchor for mm, anchor, _, _ in PAIRS_LAYOUT}
 # write-back functions that are straight-line on the reference tree (confirmed by reading)
 UNCONDITIONAL = [
     MM + "whirlpool::MemoryMappedWhirlpool::update_liquidity_and_reward_growth_global",
-    MM + "whirlpool::MemoryMappedWhirlpool::set_liquidity",
-    MM + "whirlpool::MemoryMappedWhirlpool::set_reward_growth_global",
-    MM + "whirlpool::MemoryMappedWhirlpool::set_reward_last_updated_timestamp",
     MM + "position::MemoryMappedPosition::update",
     MM + "position::MemoryMappedPosition::set_reward_infos",
     MM + "tick_array::tick::MemoryMappedTick::update",
@@ -202,7 +199,24 @@ def R3_accessors(run):
                 want = "core::num::<impl %s>::to_le_bytes" % aty
                 run.check("R3", "encode:%s.%s" % (short, fn.name), encs == {want}, "setter %s::%s encodes with %s but the Anchor field is %s" % (short, fn.name, sorted(encs), aty),
                           loc=fn.loc(), detail="%s::to_le_bytes" % aty)
-    run.floor("R3", "accessors and setters", n, 35)
+    # every integer field of a view is stored as to_le_bytes of the Anchor field's own integer type, in whichever method the store is
+    # (private setters may be spliced into their callers)
+    m_enc = 0
+    for w in writes.field_stores(facts):
+        fn = w["fn"]
+        if fn.kind != "fn" or fn.self_ty not in VIEW_OF or w["adt"] != fn.self_ty or w["kind"] != "assign":
+            continue
+        aty = _anchor_field_ty(facts, VIEW_OF[fn.self_ty], w["field"])
+        if not (aty and L.int_kind(aty) and L.int_kind(aty)[0] in ("u", "i")):
+            continue
+        v = strip(prov_of(fn)._rvalue(w["rv"], w["block"], w["stmt"], 0))
+        encs = {x[1] for x in subterms(v) if x[0] == "call" and x[1].endswith("to_le_bytes")}
+        m_enc += 1
+        run.check("R3", "encode-store:%s.%s@%s" % (fn.self_ty.rsplit("::", 1)[-1], w["field"], fn.name), encs == {"core::num::<impl %s>::to_le_bytes" % aty},
+                  "%s stores %s.%s encoded with %s, the Anchor field is %s" % (fn.path, fn.self_ty.rsplit("::", 1)[-1], w["field"], sorted(encs) or sh(v, 40), aty), loc=fn.loc(w["line"]),
+                  detail="%s::to_le_bytes" % aty)
+    run.floor("R3", "encoded integer stores", m_enc, 12)
+    run.floor("R3", "accessors and setters", n, 32)
     # write-backs apply on every path: each store and each call to a sibling setter of these functions runs whenever the function
     # returns (a "nothing changed" early return would leave the other values of the same update unwritten)
     for path in UNCONDITIONAL:
@@ -227,7 +241,7 @@ def R3_accessors(run):
     # name-copy rule
     copies = [MM + "tick_array::tick::MemoryMappedTick::update", MM + "position::MemoryMappedPosition::update",
               "state::tick::Tick::update", "state::position::Position::update",
-              MM + "position::MemoryMappedPosition::set_reward_infos", MM + "whirlpool::MemoryMappedWhirlpool::set_reward_growth_global"]
+              MM + "position::MemoryMappedPosition::set_reward_infos", MM + "whirlpool::MemoryMappedWhirlpool::update_liquidity_and_reward_growth_global"]
     for path in copies:
         fn = facts.fn(path)
         if fn is None:
